@@ -1,5 +1,6 @@
 import Amgcl.Proofs.RSTransfer
 import Amgcl.Proofs.RSRowSum2
+import Amgcl.Proofs.RSStrongC
 
 import Amgcl.Properties.C03
 /-!
@@ -13,6 +14,9 @@ templates by exact-rational differential execution, harness/h_rs.cpp, op `rs_tra
   every strength-flag array and every transposed pattern handed to `cfsplit` whose initial lambdas are below `n`
   (the condition under which the bucket arrays are indexed in range), and hence for `transfer_operators` on every
   well-formed square matrix without duplicate columns in a row, all parameters.
+* (a') `cfsplit_marks`, `transfer_marks` — the meaning of the marks: rows that `connect` marked `F` (no negative
+  coupling beyond `eps`) stay `F`, and every other `F` point has a strong neighbour that is `C` in the final splitting
+  (so its interpolation row is not empty of candidates); holds for any visiting order of the main loop.
 * (b) `cidx_contiguous`, `transfer_P_wellformed` — `cidx` numbers the C points `0 … nc-1` in increasing order without
   gaps, `P` has exactly `nc` columns, every column index is in range (`P.WF`), C rows are the unit rows of their
   coarse index, every column is hit by such a unit row, `empty_level` iff there is no C point, and the row widths
@@ -66,6 +70,28 @@ theorem transfer_all_decided (g : Garbage K) (norm : K → K) (epsStrong : K) (d
   | F => exact Or.inr rfl
 
 end transfer
+
+/-- meaning of the marks after `cfsplit`, for every well-formed pattern, every flag array and every transposed pattern
+that lists only rows flagging the column (`RS.SpOK`): initial `F` marks are kept, and a new `F` point has a flagged
+entry whose column is `C` -/
+theorem cfsplit_marks (G : SGraph) (hG : G.WF) (sptr scol : Array Nat) (hsp : SpOK G sptr scol) (cf0 : Array CF)
+    (hsz : cf0.size = G.size) :
+    (∀ c, cf0.getD c CF.U = CF.F → (cfsplit G sptr scol cf0).getD c CF.U = CF.F) ∧
+    (∀ c, (cfsplit G sptr scol cf0).getD c CF.U = CF.F →
+      cf0.getD c CF.U = CF.F ∨ ∃ cs ∈ G.row c, cs.2 = true ∧ (cfsplit G sptr scol cf0).getD cs.1 CF.U = CF.C) :=
+  RS.cfsplit_marks G hG sptr scol hsp cf0 hsz
+
+/-- the same for `transfer_operators` on every well-formed square matrix: an `F` point either has no negative
+coupling beyond `eps` (marked by `connect`) or has a strong `C` neighbour -/
+theorem transfer_marks {K : Type} [Field K] [LinearOrder K] (g : Garbage K) (norm : K → K) (epsStrong : K)
+    (doTrunc : Bool) (epsTrunc eps : K) (A : CRS K) (hA : A.WF) (hsq : A.ncols = A.nrows) :
+    (∀ c, c < A.nrows → (connectRow norm epsStrong eps c (A.row c)).1 = true →
+      (transferFull g norm epsStrong doTrunc epsTrunc eps A).cf.getD c CF.U = CF.F) ∧
+    (∀ c, (transferFull g norm epsStrong doTrunc epsTrunc eps A).cf.getD c CF.U = CF.F →
+      (c < A.nrows ∧ (connectRow norm epsStrong eps c (A.row c)).1 = true) ∨
+      ∃ cs ∈ (flagGraph A (transferFull g norm epsStrong doTrunc epsTrunc eps A).S.val).row c,
+        cs.2 = true ∧ (transferFull g norm epsStrong doTrunc epsTrunc eps A).cf.getD cs.1 CF.U = CF.C) :=
+  transferFull_marks g norm epsStrong doTrunc epsTrunc eps A hA hsq
 
 /-- a 5-point ring with unequal weights: the hypotheses hold (`Input.of_bool`) and the splitting is non-trivial -/
 example :
